@@ -42,9 +42,9 @@ func List(l ...Value) Value {
 	}
 	return Value{K: "list", L: l}
 }
-func Map(m ...Entry) Value        { return Value{K: "map", M: m} }
-func Bytes(s string) Value        { return Value{K: "bytes", S: s} }
-func Fun(s string) Value          { return Value{K: "fun", S: s} }
+func Map(m ...Entry) Value           { return Value{K: "map", M: m} }
+func Bytes(s string) Value           { return Value{K: "bytes", S: s} }
+func Fun(s string) Value             { return Value{K: "fun", S: s} }
 func Tagged(t string, d Value) Value { return Value{K: "tagged", S: t, L: []Value{d}} }
 
 func (v Value) F() float64 { return math.Float64frombits(v.FB) }
